@@ -159,10 +159,9 @@ def run(prop: str, tier: str, seed: int):
            "functions": [], "rule": ""}
     seen = set()
     if prop in ("C04", "C05", "C12"):
-        out["functions"] = ["SubstitutorValidator.visit_list (assumed contract rvalid)",
-                            "SubstitutorValidator.visit_dict (assumed contract rvalid)",
-                            "idempotence of container substitution (C12; not a proof obligation)",
-                            "second opinion on the container visits of Substitutor (which are under contract)"]
+        out["functions"] = ["idempotence of container substitution (C12 clause that is not a proof obligation)",
+                            "second opinion on the container visits of Substitutor and on the relaxed validator "
+                            "(all under contract): the property's native oracle on the real code"]
         out["rule"] = ("every pair of %d container schemas (typed / element / head / tail / contains lists, strict / relaxed / "
                        "nested / optional dicts, any, alias) and ~35 values each (conforming, partial, perturbed, extra keys, "
                        "inconvertible members, ... placeholders); distinct = pairs for which the substitution is attempted on a "
